@@ -55,8 +55,15 @@ def lifecycle_clauses(case, d):
     for i, s in state.items():
         if s not in ("idle",) and i not in doubled:
             bad.append("not-exited-when-do-returned" if s in ("live", "closing") else "malformed")
-    if d["raised"].startswith("other:") or d["raised"] == "kbint":
-        bad.append("unexpected-exception-from-do:" + d["raised"].split(":")[-1])
+    r = d["raised"]
+    if r.startswith("other:"):
+        bad.append("unexpected-exception-from-do:" + r.split(":")[-1])
+    elif r in ("kbint", "sysexit"):
+        # KeyboardInterrupt leaves do() only when raised by an enter; SystemExit when a doer raised it
+        specs = [x for x, _, _ in S.all_specs(case) if x[0] == "leaf"]
+        ok = any(x[3] == r for x in specs) or (r == "sysexit" and any(o == "sysexit" for x in specs for _, o in x[4]))
+        if not ok:
+            bad.append("unexpected-exception-from-do:" + r)
     if d["late"]:
         bad.append("exited-only-by-garbage-collector-after-do-returned")
     # a doer that can never be extended again is entered at most once
@@ -85,7 +92,7 @@ class C01(S.SchedCheck):
             "+ regression corpus (F01-F07) + thorough: exhaustive single-fault scope.  non-trivial = >=12 events and (do() raised or a forced close / remove / extend happened); distinct by request line")
 
     def corpus(self):
-        return list(S.CORPUS) + list(S.CORPUS_SELFRM)
+        return list(S.CORPUS) + list(S.CORPUS_SELFRM) + list(S.CORPUS_BEXC)
 
     def exhaustive(self, tier):
         if tier != "thorough":
@@ -95,7 +102,7 @@ class C01(S.SchedCheck):
     def oracle(self, case, obs):
         return lifecycle_clauses(case, obs.d)
 
-    profiles = ("mixed", "ops", "faults", "time", "selfrm")
+    profiles = ("mixed", "ops", "faults", "time", "selfrm", "bexc", "closeops", "benter")
 
     def known(self, case, obs, clauses):
         # C01-K1 (pre-finding F01): KeyboardInterrupt raised by a doer -> neither clean, cease nor abort runs for it
@@ -122,7 +129,12 @@ class C01(S.SchedCheck):
                         cur = []
                 for c in inc:
                     if not any(k in TERM for k in c) and c.count("enter") == 1:
-                        if not (i in spec and S.has_out(spec[i], "kbint")):
+                        if i not in spec:
+                            return None
+                        # the BaseException comes from the doer itself / from below it, or from the enter of a
+                        # pool doer inside an extend() this leaf issues
+                        via_extend = spec[i][0] == "leaf" and S.has_op(spec[i], "extend") and any(S.enter_bexc(spec[j]) for j in pools.get(par[i], ()))
+                        if not (S.raises_bexc(spec[i]) or via_extend):
                             return None
         if EA in clauses:
             live = set()
